@@ -92,7 +92,8 @@ ReloadClauses(st, c, af, nk) ==
    <<"C15.reload-logs-the-point", c.out = "ok" => (af.loglen = st.loglen + 1 /\ Len(c.rows) = 1 /\ Near(c, c.last_row_ulp))>>,
    <<"C15.logged-rows-are-reproducible", \A i \in 1..Len(c.rows) : c.rows[i].penok /\ c.rows[i].tarok>>,
    <<"C15.log-still-readable", c.log_ok>>,
-   <<"C10.call-accepts-its-documented-arguments", c.out \in Outcomes \cup {"ValueError"}>>}
+   <<"C10.call-accepts-its-documented-arguments",
+       c.out \in Outcomes \cup {"ValueError"} \cup (IF st.loglen = 0 THEN {"IndexError"} ELSE {})>>}     \* no row to reload: a clear_log() cut short by the action left the log empty
 
 TagClauses(st, c, af, nk) ==
   {<<"C15.tag-logs-the-current-point", c.out = "ok" => (af.loglen = st.loglen + 1 /\ Len(c.rows) = 1 /\ Near(c, c.first_row_ulp) /\ Near(c, c.moved_ulp)
